@@ -75,14 +75,14 @@ def _tmos_ok(child, shape, T):
     return child.tmos == want
 
 
-@obligation(params=dict(o1=Text(2), o2=Text(2), o3=Text(2), c1=Int(0, 4), c2=Int(0, 4), c3=Int(0, 4), shape=Int(0, 4)),
+@obligation(params=dict(o1=Text(2), o2=Text(2), o3=Text(2), c1=Int(0, 3), c2=Int(0, 3), c3=Int(0, 3), shape=Int(0, 4)),
             tags={2: 'two single-line commands', 3: 'a two-line command then a single-line one',
                   4: 'incomplete input: ValueError, then a normal command', 5: 'three lines, the middle one empty',
                   6: 'a command ending with a newline (an extra empty line is sent)'},
             timeout=900, split=('shape', 'c1'),
             thorough=dict(params=dict(o1=Text(3), o2=Text(3), o3=Text(3), c1=Int(0, 5), c2=Int(0, 5), c3=Int(0, 5)),
                           timeout=3000, split=('shape', 'c1', 'c2')),
-            note='shape 0: cmd; cmd   1: two-line cmd; cmd   2: incomplete cmd (continuation prompt) ; cmd')
+            note='shape 0: cmd; cmd   1: two-line cmd; cmd   2: incomplete cmd (continuation prompt) ; cmd   3: three lines   4: trailing newline.  Cut positions: output + prompt is at most 4 characters, so 1..3 are all interior cuts (0 = delivered whole)')
 def Q1_commands(o1, o2, o3, c1, c2, c3, shape, tmo=None):
     shape = pick(shape, 0, 4)
     # the timeout convention the caller uses (-1 / a number / None) varies with the first cut position
@@ -172,7 +172,7 @@ def _drive(coro, child, loop):
     raise AssertionError('run_command did not finish')
 
 
-@obligation(params=dict(o1=Text(1), o2=Text(1), o3=Text(1), c1=Int(0, 3), c2=Int(0, 3), c3=Int(0, 3), shape=Int(0, 4)),
+@obligation(params=dict(o1=Text(1), o2=Text(1), o3=Text(1), c1=Int(0, 2), c2=Int(0, 2), c3=Int(0, 2), shape=Int(0, 4)),
             tags={2: 'two single-line commands', 3: 'a two-line command then a single-line one',
                   4: 'incomplete input: ValueError, then a normal command', 5: 'a three-line command',
                   6: 'a command ending with a newline (an extra empty line is sent)'},
